@@ -524,6 +524,22 @@ func (ch c15) Run(c *core.Ctx) {
 				wg.Add(1)
 				go func() { defer wg.Done(); odd(kk) }()
 			}
+			// neighbours that have connected and then stay silent for as long as the sessions run: nothing
+			// sent at all, an SSLRequest (answered 'N') and nothing more, the first bytes of a start-up packet
+			var silent []*tr.Conn
+			if rep%2 == 1 {
+				for k := 1 + rng.Intn(3); k > 0; k-- {
+					conn := env.Dial(nil)
+					switch rng.Intn(3) {
+					case 1:
+						conn.Send(pg.SSLRequest())
+					case 2:
+						conn.Send(pg.Startup([][2]string{{"user", "slow"}})[:6])
+					}
+					silent = append(silent, conn)
+					c.Count("silent_neighbours_in_startup", 1)
+				}
+			}
 			for i := range sessions {
 				seed := rng.U64()
 				wg.Add(1)
@@ -533,6 +549,10 @@ func (ch c15) Run(c *core.Ctx) {
 				}(i)
 			}
 			wg.Wait()
+			for _, conn := range silent {
+				conn.CloseWrite()
+				conn.WaitClosed()
+			}
 			env.Stop()
 			c.Count("groups", 1)
 			c.Count("concurrent_sessions", int64(n))
